@@ -4,10 +4,10 @@
 -- expression against the real evaluator / CompositionPoly / verifier pieces) instantiated with an
 -- arbitrary Mathlib field; trace lengths, widths, constraint sets and assertion sets are unbounded.
 import Mathlib.Algebra.Field.ZMod
-import WinterProofs.Lemmas.C17Basic
+import WinterProofs.Lemmas.C17Poly
 
 namespace WinterProofs.C17
-open Model.Divisor Model.Composition WinterProofs.C16L WinterProofs.C17L
+open Model.Divisor Model.Composition WinterProofs.C16L WinterProofs.C17L Polynomial
 
 variable {F : Type} [Field F]
 
@@ -175,5 +175,264 @@ theorem columns_le_blowup (ds : List Degree) (n e B : ℕ) (hn : 0 < n) (hB : 1 
   exact max_le (by omega) hB
 
 example : numCompositionColumns [⟨2, []⟩, ⟨3, [4]⟩] 8 1 = 3 ∧ ceBlowup [⟨2, []⟩, ⟨3, [4]⟩] = 4 := by decide
+
+-- ============================================================================================
+-- (a) the three boundary-constraint representations of the prover
+-- ============================================================================================
+
+/-- 3 has exact order 16 in ZMod 17 (the concrete domain of the examples: n = 8, ce blowup 2) -/
+theorem three_primitive_zmod17 : IsPrimitiveRoot (3 : ZMod 17) 16 :=
+  IsPrimitiveRoot.mk_of_lt _ (by decide) (by decide) (fun l h0 h16 =>
+    (by decide : ∀ l : Fin 16, 0 < l.val → (3 : ZMod 17) ^ l.val ≠ 1) ⟨l, h16⟩ h0)
+
+/-- the example domain: trace length 8, constraint evaluation blowup 2, LDE blowup 2, offset 5,
+    generators 3 (order 16) -/
+def exDomain : Domain (ZMod 17) := ⟨8, 2, 2, 5, 3, 3⟩
+
+/-- **the three representations agree with the value polynomial.**  Whatever representation
+    `SingleValue / SmallPoly / LargePoly` the prover chooses for a boundary constraint `c` (for ANY
+    threshold at which it switches), its evaluation at step `i` of the constraint evaluation domain is
+    `state[column] − b(x_i)` with `b` the constraint's value polynomial at the shifted point
+    `x_i·offset_elem` (`BoundaryConstraint::evaluate_at`, characterised by C16).  For `LargePoly` this is
+    the index identity: entry `(i − first·ce_blowup) mod N` of the pre-computed table equals `b(x_i·g^(-first))`. -/
+theorem boundary_representations_agree {root : ℕ → Option F} (D : Domain F) (threshold : ℕ)
+    (c : BConstraint F) (r : BRepr F) (hok : ReprOK root D c)
+    (hr : BRepr.ofConstraint (fieldOps F root) D threshold c = some r)
+    (state : ℕ → F) (step : ℕ) (hstep : step < D.ceSize) :
+    r.evaluate (fieldOps F root) state step (D.ceX (fieldOps F root) step)
+      = some (c.evalAt (fieldOps F root) (D.ceX (fieldOps F root) step) (state c.column)) :=
+  boundary_repr_value root D threshold c r hok hr state step hstep
+
+/-- **the representation switch is irrelevant to the value**: two evaluators that switch at
+    different sizes (e.g. the code's 63 and any other) compute the same numerator at every step -/
+theorem representation_switch_irrelevant {root : ℕ → Option F} (D : Domain F) (t1 t2 : ℕ)
+    (c : BConstraint F) (r1 r2 : BRepr F) (hok : ReprOK root D c)
+    (h1 : BRepr.ofConstraint (fieldOps F root) D t1 c = some r1)
+    (h2 : BRepr.ofConstraint (fieldOps F root) D t2 c = some r2)
+    (state : ℕ → F) (step : ℕ) (hstep : step < D.ceSize) :
+    r1.evaluate (fieldOps F root) state step (D.ceX (fieldOps F root) step)
+      = r2.evaluate (fieldOps F root) state step (D.ceX (fieldOps F root) step) := by
+  rw [boundary_representations_agree D t1 c r1 hok h1 state step hstep,
+    boundary_representations_agree D t2 c r2 hok h2 state step hstep]
+
+/-- the hypotheses hold for a two-coefficient value polynomial with first step 1 over the example
+    domain (`g = 3^2 = 9`, `offset_elem = 9⁻¹ = 2`), and both a small and a large representation exist -/
+example : ReprOK (fun _ => some (3 : ZMod 17)) exDomain ⟨0, [1, 2], 1, 2⟩ :=
+  ⟨by decide, by decide, rfl, by decide, by decide, by decide⟩
+
+example : ∃ r1 r2, BRepr.ofConstraint (fieldOps (ZMod 17) (fun _ => some 3)) exDomain 63 ⟨0, [1, 2], 1, 2⟩ = some r1 ∧
+    BRepr.ofConstraint (fieldOps (ZMod 17) (fun _ => some 3)) exDomain 2 ⟨0, [1, 2], 1, 2⟩ = some r2 :=
+  ⟨_, _, rfl, rfl⟩
+
+-- ============================================================================================
+-- (b) the periodic value table
+-- ============================================================================================
+
+/-- **periodic value table.**  For every step of the constraint evaluation domain,
+    `get_row(step)[j] = poly_j(x_step^(n/len_j))`: the table of expanded cycles, indexed modulo the
+    longest expanded cycle, holds the periodic column polynomials at the points the definition uses.
+    Hypotheses: cycle lengths are powers of two dividing `n`, `get_root_of_unity(log2(len_j·B))` is
+    the matching power of the domain generator, the generator has order dividing the domain size. -/
+theorem periodic_table_get_row {root : ℕ → Option F} (D : Domain F) (polys : List (List F)) (t : PTable F)
+    (ht : PTable.new (fieldOps F root) D polys = some t)
+    (hpow : ∀ p ∈ polys, ∃ k, p.length = 2 ^ k) (hdvd : ∀ p ∈ polys, p.length ∣ D.n)
+    (hroot : ∀ p ∈ polys, root (Nat.log2 (p.length * D.ceBlowup)) = some (D.wce ^ (D.n / p.length)))
+    (hw : D.wce ^ D.ceSize = 1) (hB : 0 < D.ceBlowup)
+    (j : ℕ) (p : List F) (hj : polys[j]? = some p) (step : ℕ) :
+    nth (fieldOps F root) (t.getRow step) j
+      = polyEval (fieldOps F root) p ((D.ceX (fieldOps F root) step) ^ (D.n / p.length)) :=
+  periodic_table_row root D polys t ht hpow hdvd hroot hw hB j p hj step
+
+/-- the root family of the examples: `get_root_of_unity(k) = 3^(16/2^k)` -/
+def exRoot (k : ℕ) : Option (ZMod 17) := some (3 ^ (16 / 2 ^ k))
+
+/-- two periodic columns of cycle lengths 2 and 4 over the example domain satisfy the hypotheses -/
+example : ∃ t, PTable.new (fieldOps (ZMod 17) exRoot) exDomain [[1, 2], [3, 4, 5, 6]] = some t ∧
+    (∀ p ∈ [[1, 2], [3, 4, 5, 6]], ∃ k, p.length = 2 ^ k) ∧
+    (∀ p ∈ [[(1 : ZMod 17), 2], [3, 4, 5, 6]], p.length ∣ exDomain.n) ∧
+    (∀ p ∈ [[(1 : ZMod 17), 2], [3, 4, 5, 6]],
+      exRoot (Nat.log2 (p.length * exDomain.ceBlowup)) = some (exDomain.wce ^ (exDomain.n / p.length))) := by
+  refine ⟨_, rfl, ?_, ?_, ?_⟩
+  · intro p hp; simp only [List.mem_cons, List.not_mem_nil, or_false] at hp
+    rcases hp with rfl | rfl
+    · exact ⟨1, rfl⟩
+    · exact ⟨2, rfl⟩
+  · intro p hp; simp only [List.mem_cons, List.not_mem_nil, or_false] at hp
+    rcases hp with rfl | rfl <;> decide
+  · intro p hp; simp only [List.mem_cons, List.not_mem_nil, or_false] at hp
+    rcases hp with rfl | rfl <;> decide
+
+-- ============================================================================================
+-- (f) frames from the trace LDE, divisor inverses of `acc_column`
+-- ============================================================================================
+
+/-- **constraint-evaluation blowup smaller than the LDE blowup.**  Reading row `i·(lde/ce)` of the
+    trace LDE and row `+ lde_blowup (mod LDE size)` gives the trace polynomials at `x_i` and `x_i·g`,
+    `x_i` the `i`-th point of the constraint evaluation domain -/
+theorem prover_frames_are_trace_polys {root : ℕ → Option F} (D : Domain F) (mainPolys auxPolys : ℕ → List F)
+    (g : F) (step : ℕ) (hr : D.wlde ^ (D.ldeBlowup / D.ceBlowup) = D.wce) (hg : D.wlde ^ D.ldeBlowup = g)
+    (hwl : D.wlde ^ D.ldeSize = 1) :
+    proverFrames (fieldOps F root) D mainPolys auxPolys step
+      = framesOf (fieldOps F root) mainPolys auxPolys g (D.ceX (fieldOps F root) step) :=
+  prover_frames_eq root D mainPolys auxPolys g step hr hg hwl
+
+example : (⟨8, 2, 4, 5, 9, 3⟩ : Domain (ZMod 17)).wlde ^ (4 / 2) = 9 ∧ (3 : ZMod 17) ^ (8 * 4) = 1 := by decide
+
+/-- **division by the divisor in `acc_column`.**  `z[i % z.len()]`, with `z` the `ce/a` inverses
+    `get_inv_evaluation` computes, is `1 / (x_i^a − b)` for EVERY step `i` -/
+theorem acc_column_inverse_index {root : ℕ → Option F} (D : Domain F) (a : ℕ) (b : F) (ex z : List F)
+    (hz : invEvaluations (fieldOps F root) D ⟨[(a, b)], ex⟩ = some z) (hw : D.wce ^ D.ceSize = 1)
+    (hdvd : a ∣ D.ceSize) (ha : 0 < a) (hce : 0 < D.ceSize) (i : ℕ) :
+    nth (fieldOps F root) z (i % z.length) = 1 / ((D.ceX (fieldOps F root) i) ^ a - b) :=
+  inv_evaluation_index root D a b ex z hz hw hdvd ha hce i
+
+-- ============================================================================================
+-- (e) the verifier's expression is the definition
+-- ============================================================================================
+
+/-- **the verifier's expression is the definition evaluated at `x`.**  For every instance `P` that
+    `prep` (AIR instantiation: sorted, validated assertions and their value polynomials) produces and
+    every point `x`: `evaluate_constraints` on the frame `(t_j(x), t_j(x·g))` — transition
+    coefficients split main | aux, the merged evaluations divided once by the transition divisor,
+    boundary constraints merged per `(stride, first step)` group and divided once per group — equals
+    `C(x) = Σ_j α_j·T_j/Z_T + Σ_i β_i·(t_{col_i}(x) − v_i(x))/Z_i(x)`.  Holds at every `x`, in particular
+    at the out-of-domain point `z`. -/
+theorem verifier_expression_eq_definition {root : ℕ → Option F} (air : Air F) (P : Prep F)
+    (hP : prep (fieldOps F root) air = some P) (mainPolys auxPolys : ℕ → List F) (rands : ℕ → F)
+    (tco bco : List F) (x : F) (he : air.e ≤ air.n) (hlen : air.mainCons.length ≤ tco.length) :
+    evaluateConstraints (fieldOps F root) air P (framesOf (fieldOps F root) mainPolys auxPolys P.g x) rands tco bco x
+      = defAt (fieldOps F root) air P mainPolys auxPolys rands tco bco x :=
+  verifier_eq_definition root air P mainPolys auxPolys rands tco bco x he (prep_keyDet hP).1 (prep_keyDet hP).2 hlen
+
+/-- n = 8 over ZMod 17 (g = 9 = 3^2): one periodic column of cycle 2, the constraint
+    `next0 − cur0·cur0 − p0`, a single assertion and a two-value sequence assertion with first step 1 -/
+def exAir : Air (ZMod 17) :=
+  ⟨8, 1, 1, 0, [[1, 2]], [.sub (.nxt 0) (.add (.mul (.cur 0) (.cur 0)) (.per 0))], [], [⟨2, [2]⟩], [],
+   [⟨0, 0, 0, [3]⟩, ⟨0, 1, 4, [5, 6]⟩], []⟩
+
+/-- the hypotheses of `verifier_expression_eq_definition` hold for this instance -/
+example : ∃ P, prep (fieldOps (ZMod 17) exRoot) exAir = some P ∧ P.main.length = 2 ∧ exAir.e ≤ exAir.n ∧
+    exAir.mainCons.length ≤ [(7 : ZMod 17)].length := by
+  refine ⟨_, rfl, ?_, ?_, ?_⟩ <;> decide
+
+/-- the divisors the model uses are the ones C16 characterises: `from_transition` … -/
+theorem transitionDivisor_is_fromTransition {root : ℕ → Option F} {g : F} {n e : ℕ}
+    (hroot : root (Nat.log2 n) = some g) (he : e ≤ n) :
+    fromTransition (fieldOps F root) n e = .ok (transitionDivisor (fieldOps F root) g n e) := by
+  unfold fromTransition transitionDivisor
+  rw [if_neg (by omega)]
+  by_cases h0 : e = 0
+  · subst h0; simp [fieldOps]
+  · rw [if_neg h0]; simp [fieldOps, hroot]
+
+/-- … and `from_assertion`, for every assertion that passed `validate_trace_length` -/
+theorem assertionDivisor_is_fromAssertion {root : ℕ → Option F} {g : F} {n : ℕ} (a : Assertion F)
+    (hroot : root (Nat.log2 n) = some g) (hv : a.validateTraceLength n = .ok ())
+    (hlt : numSteps a n * a.first < n) :
+    fromAssertion (fieldOps F root) a n = .ok (assertionDivisor (fieldOps F root) g a n) := by
+  unfold fromAssertion Assertion.getNumSteps assertionDivisor numSteps
+  rw [hv]
+  by_cases hs : a.isSingle = true
+  · simp only [hs, if_true]
+    by_cases h0 : a.first = 0
+    · simp [h0]
+    · have : ¬ (n ≤ a.first) := by simpa [numSteps, hs] using hlt
+      simp [h0, traceDomainValueAt, this, fieldOps, hroot]
+  · simp only [hs, Bool.false_eq_true, if_false]
+    by_cases hp : a.isPeriodic = true
+    · simp only [hp, if_true]
+      by_cases h0 : a.first = 0
+      · simp [h0]
+      · have : ¬ (n / a.stride * a.first ≥ n) := by simpa [numSteps, hs, hp] using hlt
+        simp [h0, traceDomainValueAt, this, fieldOps, hroot]
+    · simp only [hp, Bool.false_eq_true, if_false]
+      by_cases h0 : a.first = 0
+      · simp [h0]
+      · have : ¬ (a.values.length * a.first ≥ n) := by simpa [numSteps, hs, hp] using hlt
+        simp [h0, traceDomainValueAt, this, fieldOps, hroot]
+
+-- ============================================================================================
+-- (h) the committed polynomial equals the definition at every field point
+-- ============================================================================================
+
+/-- FULL STATEMENT (property C17, prover side): for the composition polynomial trace the evaluator
+    produces and the columns `CompositionPoly::new` cuts it into, `Σ_i x^(i·n) H_i(x) = C(x)` at every
+    field point off the trace domain (on the trace domain the definition is a quotient `0/0`; the
+    committed polynomial is its continuation). -/
+def CommittedEqDefinition (root : ℕ → Option F) (beq : F → F → Bool) (air : Air F) (P : Prep F) (D : Domain F)
+    (threshold : ℕ) (mainPolys auxPolys : ℕ → List F) (rands : ℕ → F) (tco bco : List F) : Prop :=
+  ∀ ctr cols, compositionTrace (fieldOps F root) beq air P D threshold mainPolys auxPolys rands tco bco = some ctr →
+    compositionPoly (fieldOps F root) D ctr (numCompositionColumns (air.mainDegs ++ air.auxDegs) air.n air.e) = some cols →
+    ∀ x, x ^ air.n ≠ 1 →
+      some (recombine (fieldOps F root) air.n x (evaluateAt (fieldOps F root) cols x))
+        = defAt (fieldOps F root) air P mainPolys auxPolys rands tco bco x
+
+/-- **PARTIAL (named hypotheses).**  Proved here: interpolation over the constraint evaluation coset
+    (the model's inverse DFT with offset inverts evaluation), uniqueness of a polynomial of degree below
+    the domain size through its values on the coset, the column split and that no coefficient is lost in
+    the `k` columns.  Hypotheses that remain:
+    * `hrows` — the composition trace holds the definition at every point of the constraint evaluation
+      domain.  Its ingredients are the theorems above (`prover_frames_are_trace_polys`,
+      `periodic_table_get_row`, `boundary_representations_agree`, `acc_column_inverse_index`,
+      `verifier_expression_eq_definition` for the grouping); their assembly through the evaluation table
+      is not machine-checked and is covered by the correspondence run (the driver executes
+      `compositionTrace` and `defAt` on every explicit instance).
+    * `hQ`, `hQdeg` — for a VALID trace the definition is a polynomial `Q` of degree below `n·k`
+      (divisibility of the numerators by the divisors: C16; degrees: `quotient_degree_lt_columns`).
+    Conclusion: the committed columns recombine to `Q` at EVERY field point, hence to the definition
+    wherever the latter is defined. -/
+theorem committed_eq_definition_partial {root : ℕ → Option F}
+    (air : Air F) (P : Prep F) (D : Domain F) (mainPolys auxPolys : ℕ → List F) (rands : ℕ → F)
+    (tco bco ctr : List F) (cols : List (List F)) (k : ℕ)
+    (hDn : D.n = air.n) (hlen : ctr.length = D.ceSize) (hpos : 0 < D.ceSize)
+    (hw : IsPrimitiveRoot D.wce D.ceSize) (hroot : root (Nat.log2 D.ceSize) = some D.wce) (ho : D.offset ≠ 0)
+    (hcols : compositionPoly (fieldOps F root) D ctr k = some cols)
+    (hk : air.n * k ≤ D.ceSize)
+    (hoff : ∀ i, (D.ceX (fieldOps F root) i) ^ air.n ≠ 1)
+    (hrows : ∀ i (hi : i < ctr.length),
+      defAt (fieldOps F root) air P mainPolys auxPolys rands tco bco (D.ceX (fieldOps F root) i) = some ctr[i])
+    (Q : F[X]) (hQdeg : Q.natDegree < air.n * k)
+    (hQ : ∀ x, x ^ air.n ≠ 1 →
+      defAt (fieldOps F root) air P mainPolys auxPolys rands tco bco x = some (Q.eval x)) :
+    (∀ x, recombine (fieldOps F root) air.n x (evaluateAt (fieldOps F root) cols x) = Q.eval x) ∧
+    (∀ x, x ^ air.n ≠ 1 →
+      some (recombine (fieldOps F root) air.n x (evaluateAt (fieldOps F root) cols x))
+        = defAt (fieldOps F root) air P mainPolys auxPolys rands tco bco x) := by
+  have main : ∀ x, recombine (fieldOps F root) air.n x (evaluateAt (fieldOps F root) cols x) = Q.eval x := by
+    unfold compositionPoly at hcols
+    simp only [bind, Option.bind_eq_some_iff, pure, Option.some.injEq] at hcols
+    obtain ⟨c, hc, rfl⟩ := hcols
+    have hm : 0 < ctr.length := by omega
+    obtain ⟨hclen, hcval⟩ := interpolateWithOffset_spec root hm (by rw [hlen]; exact hw)
+      (by rw [hlen]; exact hroot) ho hc
+    have hQdeg' : Q.degree < D.ceSize := by
+      calc Q.degree ≤ Q.natDegree := degree_le_natDegree
+        _ < (D.ceSize : WithBot ℕ) := by exact_mod_cast lt_of_lt_of_le hQdeg hk
+    have hPc : listPoly c = Q := by
+      apply eq_of_eval_coset hw ho _ _ (by rw [← hlen, ← hclen]; exact listPoly_degree_lt c) hQdeg'
+      intro i hi
+      have hi' : i < ctr.length := by omega
+      rw [listPoly_eval root, hcval i hi']
+      have h1 := hrows i hi'
+      have h2 := hQ _ (hoff i)
+      rw [ceX_eq] at h1 h2
+      rw [h1] at h2
+      exact Option.some.inj h2
+    intro x
+    rw [hDn, column_split, polyEval_take_of_zero root c (air.n * k) x, ← listPoly_eval root, hPc]
+    intro m hmk
+    rw [← listPoly_coeff, hPc]
+    exact coeff_eq_zero_of_natDegree_lt (lt_of_lt_of_le hQdeg hmk)
+  exact ⟨main, fun x hx => by rw [main x, hQ x hx]⟩
+
+/-- the interpolation hypothesis of the partial theorem is not an assumption: over the example domain
+    the model's `interpolate_poly_with_offset` of 16 evaluations returns 16 coefficients that reproduce
+    them on the coset `5·3^i` -/
+example (evals c : List (ZMod 17)) (hl : evals.length = 16)
+    (h : interpolateWithOffset (fieldOps (ZMod 17) exRoot) evals 5 = some c) :
+    c.length = evals.length ∧
+      ∀ i (hi : i < evals.length), polyEval (fieldOps (ZMod 17) exRoot) c (3 ^ i * 5) = evals[i] :=
+  interpolateWithOffset_spec exRoot (by omega) (by rw [hl]; exact three_primitive_zmod17)
+    (by rw [hl]; rfl) (by decide) h
 
 end WinterProofs.C17
